@@ -15,7 +15,8 @@ from ..observe import PREFIX_EXP
 
 PREFIX_EXPS = sorted(set(PREFIX_EXP.values()))
 MANTS = ["0", "1", "-1", "1.50", "0.1", "1e3", "1E+3", "123456789.123456789", "1234567890123456789012345",
-         "1234567890123456789012345678901234567890", "9223372036854775807", "9223372036854775808", "1E+19", "1e-30", "-0.000001"]
+         "1234567890123456789012345678901234567890", "9223372036854775807", "9223372036854775808", "1E+19", "1e-30", "-0.000001",
+         "1.00000000000000000001", "4503599627370496.5", "-2.0000000000000000000000001", "9007199254740993"]
 INTS = [0, 1, -1, 2**31, -(2**31), 2**63 - 1, -(2**63) + 1]
 FLOATS = [0.1, 1e-9, 1 / 3, 1e22, 5e-324, 2.5, -1.75e-12]
 NUMSTR = ["5", "-5", "+5", "1.5", "1e3", "1E-9", ".5", "5.", "0.000000000000000000000000000001", "123456789012345678901234567890"]
